@@ -11,6 +11,16 @@ use crate::props;
 use crate::rng::Rng;
 
 pub const ABORT: &str = "ABORT";
+/// the answer of a request that did not return within the watchdog limit (main.rs)
+pub const TIMEOUT: &str = "TIMEOUT";
+/// marker line a child prints before it ends itself after a request that timed out (its worker
+/// thread cannot be stopped): not an answer; the parent restarts a child on the remaining requests
+pub const RESTART: &str = "#RESTART";
+/// set by a request handler that abandoned a still-running thread (c20 `half_life_t`)
+pub static EXIT_AFTER_ANSWER: std::sync::atomic::AtomicBool = std::sync::atomic::AtomicBool::new(false);
+/// a request not run because its chunk already had two timeouts (keeps a hanging change from
+/// stalling the whole run; skipped requests are counted, never judged)
+pub const SKIP: &str = "SKIP";
 
 /// run the real code on `lines` in child processes (this executable, `run` sub-command).
 /// A child that dies (abort, UB check, OOM, timeout) marks the line it was working on as ABORT
@@ -31,6 +41,7 @@ pub fn run_impl(lines: &[String], jobs: usize) -> Vec<String> {
             hs.push(sc.spawn(move || {
                 let _ = ci;
                 let mut start = 0usize;
+                let mut timeouts = 0usize;
                 while start < ls.len() {
                     let mut child = Command::new(&exe)
                         .arg("run")
@@ -50,9 +61,14 @@ pub fn run_impl(lines: &[String], jobs: usize) -> Vec<String> {
                         }
                     });
                     let mut got = 0usize;
+                    let mut restart = false;
                     for line in BufReader::new(stdout).lines() {
                         match line {
                             Ok(l) => {
+                                if l == RESTART {
+                                    restart = true;
+                                    continue;
+                                }
                                 if start + got < ls.len() {
                                     os[start + got] = l;
                                     got += 1;
@@ -64,6 +80,16 @@ pub fn run_impl(lines: &[String], jobs: usize) -> Vec<String> {
                     let _ = child.wait();
                     let _ = w.join();
                     start += got;
+                    if restart {
+                        timeouts += 1;
+                        if timeouts >= 2 {
+                            for o in os[start..].iter_mut() {
+                                *o = SKIP.to_string();
+                            }
+                            break;
+                        }
+                        continue;
+                    }
                     if start < ls.len() {
                         // the child died while working on ls[start]
                         os[start] = ABORT.to_string();
@@ -180,6 +206,8 @@ fn json_str(s: &str) -> String {
 fn kind_of(v: &Verdict, imp: &str) -> Option<&'static str> {
     if imp == ABORT {
         Some("abort")
+    } else if imp == TIMEOUT {
+        Some("timeout")
     } else if !v.impl_spec {
         Some("impl!=spec")
     } else if !v.impl_model {
@@ -303,7 +331,12 @@ pub fn check(prop: &str, tier: &str, seed: u64, model: &str, outdir: &str, corpu
     let mut shrink_budget: BTreeMap<String, usize> = BTreeMap::new();
     let mut samples: Vec<String> = vec![];
     let mut panics = 0usize;
+    let mut skipped = 0usize;
     for (i, l) in lines.iter().enumerate() {
+        if imps[i] == SKIP {
+            skipped += 1;
+            continue;
+        }
         let r = Req::parse(l);
         *fn_hist.entry(r.f.clone()).or_default() += 1;
         let xlen = r.list("xs").len();
@@ -359,7 +392,7 @@ pub fn check(prop: &str, tier: &str, seed: u64, model: &str, outdir: &str, corpu
     let t_cmp = t0.elapsed().as_secs_f64();
     for m in mism.iter_mut() {
         if m.shrunk.is_empty() {
-            if m.known.is_none() && t0.elapsed().as_secs_f64() - t_cmp < 120. {
+            if m.known.is_none() && m.kind != "timeout" && t0.elapsed().as_secs_f64() - t_cmp < 120. {
                 m.shrunk = shrink(prop, model, &m.line, m.kind);
                 if m.shrunk != m.line {
                     let im = run_impl(&[m.shrunk.clone()], 1);
@@ -376,8 +409,8 @@ pub fn check(prop: &str, tier: &str, seed: u64, model: &str, outdir: &str, corpu
     // result.json
     let mut j = String::from("{\n");
     j += &format!(" \"property\": {},\n \"tier\": {},\n \"seed\": {},\n", json_str(prop), json_str(tier), seed);
-    j += &format!(" \"evaluations\": {},\n \"corpus_cases\": {},\n \"distinct_nontrivial\": {},\n \"exhaustive\": {},\n \"impl_panics\": {},\n",
-        lines.len(), n_corpus, distinct_nontrivial, exhaustive, panics);
+    j += &format!(" \"evaluations\": {},\n \"corpus_cases\": {},\n \"distinct_nontrivial\": {},\n \"exhaustive\": {},\n \"impl_panics\": {},\n \"skipped_after_timeouts\": {},\n",
+        lines.len(), n_corpus, distinct_nontrivial, exhaustive, panics, skipped);
     j += &format!(" \"rule\": {},\n", json_str(&props::rule(prop, tier)));
     j += &format!(" \"timing_s\": {{\"gen\": {:.2}, \"impl\": {:.2}, \"model\": {:.2}, \"total\": {:.2}}},\n",
         t_gen, t_impl - t_gen, t_model - t_impl, t0.elapsed().as_secs_f64());
